@@ -3,9 +3,12 @@ import Ebv.Model.Mbx
 
 * `counter_cycle`, `counter_next`: the counter sequence is 0,1,2,…,7,1,2,… for any number of calls.
 * `inproc_serialised`, `inproc_counted`: any number of tasks sharing a `MailboxLock`, any schedule.
-* cross-process (second half of the file): `crossproc_serialised`, `creation_window_safe`, `addr_accepted`
-  are stated at full strength as `def … : Prop`; each is refuted on a concrete witness and the part that
-  does hold is proved as `…_partial` for any number of processes and any schedule. -/
+* cross-process (second half of the file, the repaired lock.py: task lock around the record lock, short read = 0,
+  ftruncate to one byte per address): `crossproc_serialised` (any number of processes AND tasks, every schedule),
+  `creation_window_safe` (file absent, every schedule, including any activity inside the creator's two steps),
+  `holder_can_proceed` (whoever holds the record lock can always run on to its unlock), `addr_accepted`.
+  The schedules that refuted these statements on the code before the three `fix:` commits are kept as
+  `same_process_witness_now` / `creation_window_witness_now`, evaluated on the repaired model. -/
 namespace Ebv.C15
 open Ebv.Mbx Ebv.Consts
 
@@ -291,67 +294,7 @@ example : run (init [[1], [2], [1]]) [0, 1, 2, 0, 1, 0, 2, 0, 1, 1, 1, 2, 1, 1, 
 example : (after (init [[1], [2], [1]]) [0, 1, 2, 0, 1, 0, 2, 0]).waiters = [1, 2] ∧
     (after (init [[1], [2], [1]]) [0, 1, 2, 0, 1, 0, 2, 0]).woken = true := by decide
 
-/-! ### processes sharing the lock file: the statements at full strength -/
-
-/-- any number of processes with any number of tasks each, lock file already initialised with a valid
-counter in the terminal's byte: every schedule is serialised and counted and nobody fails -/
-def crossproc_serialised : Prop :=
-  ∀ (size off : Nat) (data : List Nat) (tasks : List (List (List Nat))) (sched : List (Nat × Nat)),
-    fileOk off data = true → checkX xchk0 (runX (initX size off (some data) tasks) sched) = true
-
-/-- the lock file does not exist yet (even with a single mailbox task per process): whoever opens it while
-another process is creating it gets a valid counter, and everything stays serialised and counted -/
-def creation_window_safe : Prop :=
-  ∀ (size off : Nat) (tasks : List (List (List Nat))) (sched : List (Nat × Nat)),
-    off < size → oneTask tasks = true → checkX xchk0 (runX (initX size off none tasks) sched) = true
-
-/-- every address `find_free_address` can hand out (`randint(lo, hi)`, both ends included) is accepted by
-`ParallelMailboxLock(LockFile(name, lo, hi), address)` -/
-def addr_accepted : Prop :=
-  ∀ no, addrLo ≤ no → no ≤ addrHi → lockCtorOk addrLo addrHi no = true
-
-/-! ### refutations on concrete witnesses -/
-
-/-- two tasks of process 0 share the lock object: the second `lockf` succeeds as well -/
-def sameProcSched : List (Nat × Nat) :=
-  [(0,0), (0,0), (0,0), (0,0), (0,0), (0,1), (0,1), (0,1), (0,0), (0,0), (0,0), (0,1), (0,1)]
-
-/-- both tasks are inside at once, the counter 0 is used twice, the first exit sets `counter = None` and the
-second `__aexit__` dies with TypeError still holding nothing -/
-theorem same_process_witness :
-    runX (initX 4 1 (some [0, 0, 0, 0]) [[[1], [1]]]) sameProcSched =
-      [.creat 0 false, .opened 0, .lockOk 0 0, .pread 0 0 0, .send 0 0 0, .lockOk 0 1, .pread 0 1 0, .send 0 1 0,
-       .recv 0 0, .pwrite 0 0 1, .unlock 0 0, .recv 0 1, .pwriteNone 0 1] := by decide
-
-theorem crossproc_serialised_refuted : ¬ crossproc_serialised := by
-  intro h
-  have := h 4 1 [0, 0, 0, 0] [[[1], [1]]] sameProcSched (by decide)
-  revert this; decide
-
-/-- process 0 creates the file; process 1 arrives before the zeros are written -/
-def windowSched : List (Nat × Nat) := [(0,0), (1,0), (1,0), (1,0), (1,0), (0,0), (0,0), (0,0)]
-
-/-- the opener reads 0 bytes (ValueError) and keeps the record lock: the creator then spins on `lockf` -/
-theorem creation_window_witness :
-    runX (initX 4 1 none [[[1]], [[1]]]) windowSched =
-      [.creat 0 true, .creat 1 false, .opened 1, .lockOk 1 0, .preadEmpty 1 0, .winit 0, .lockBusy 0 0, .lockBusy 0 0] := by
-  decide
-
-theorem creation_window_safe_refuted : ¬ creation_window_safe := by
-  intro h
-  have := h 4 1 [[[1]], [[1]]] windowSched (by decide) (by decide)
-  revert this; decide
-
-theorem addr_accepted_refuted : ¬ addr_accepted := by
-  intro h
-  have := h addrHi (by decide) (by decide)
-  revert this; decide
-
-/-- what does hold: every address below the upper end is accepted -/
-theorem addr_accepted_partial (no : Nat) (h1 : addrLo ≤ no) (h2 : no < addrHi) : lockCtorOk addrLo addrHi no = true := by
-  simp [lockCtorOk, h1, h2]
-
-/-! ### what does hold: one mailbox task per process, any number of processes, any schedule -/
+/-! ### processes sharing the lock file -/
 
 inductive XMode where
   | out | got | inn | pend | exiting
@@ -359,7 +302,7 @@ deriving DecidableEq
 
 def wfX : XMode → List PStep → Bool
   | .out, [] => true
-  | .out, .lock :: r => wfX .got r
+  | .out, .enter :: r => wfX .got r
   | .got, .pread :: r => wfX .inn r
   | .inn, .send :: r => wfX .pend r
   | .pend, .recv :: r => wfX .inn r
@@ -380,7 +323,7 @@ theorem wfX_prog (ns : List Nat) : wfX .out (progX ns) = true := by
     rw [wfX_exchanges]
     simpa [wfX] using ih
 
-theorem wfX_out {p : List PStep} (h : wfX .out p = true) : p = [] ∨ ∃ r, p = .lock :: r ∧ wfX .got r = true := by
+theorem wfX_out {p : List PStep} (h : wfX .out p = true) : p = [] ∨ ∃ r, p = .enter :: r ∧ wfX .got r = true := by
   cases p with
   | nil => exact .inl rfl
   | cons a r => cases a <;> simp_all [wfX]
@@ -406,6 +349,10 @@ theorem wfX_exiting {p : List PStep} (h : wfX .exiting p = true) : ∃ r, p = .u
   | nil => simp [wfX] at h
   | cons a r => cases a <;> simp_all [wfX]
 
+/-- only a task outside a critical section has `enter` next -/
+theorem wfX_enter {m : XMode} {r : List PStep} (h : wfX m (.enter :: r) = true) : m = .out := by
+  cases m <;> simp_all [wfX]
+
 theorem follows_le {l : Option Nat} {v : Nat} (h : follows l v = true) : v ≤ mbxMod := by
   cases l with
   | none => simpa [follows] using h
@@ -413,8 +360,8 @@ theorem follows_le {l : Option Nat} {v : Nat} (h : follows l v = true) : v ≤ m
     simp only [follows, beq_iff_eq] at h
     subst h; unfold nextCounter mbxMod; omega
 
-theorem putByte_get (data : List Nat) (off v : Nat) : (putByte data off v)[off]? = some v := by
-  unfold putByte
+theorem cur_putByte (data : List Nat) (off v : Nat) : cur (putByte data off v) off = v := by
+  unfold cur putByte
   split
   · rename_i h; simp [h]
   · rename_i h
@@ -422,313 +369,454 @@ theorem putByte_get (data : List Nat) (off v : Nat) : (putByte data off v)[off]?
     rw [List.getElem?_append_right (by omega)]
     simp [this]
 
-/-- the role a process plays for the property: `none` = not the holder -/
-def roleOf (k : XChk) (m : XMode) (q : Nat) : Option XMode := if k.holder = some (q, 0) then some m else none
+/-- ftruncate to a larger size does not change what any reader gets -/
+theorem cur_truncTo (data : List Nat) (n off : Nat) : cur (truncTo data n) off = cur data off := by
+  unfold cur truncTo
+  by_cases h : off < data.length
+  · rw [List.getElem?_append_left h]
+  · rw [List.getElem?_append_right (by omega), List.getElem?_eq_none (l := data) (by omega)]
+    simp [List.getElem?_replicate]
+    split <;> rfl
 
-structure PInv (P : Proc) (role : Option XMode) (last : Option Nat) : Prop where
-  others : ∀ t, t ≠ 0 → P.progs t = []
-  wf : wfX (role.getD .out) (P.progs 0) = true
-  notCreated : P.init ≠ .created
-  ready : role.isSome = true → P.init = .ready
-  busy : P.busy = if role = some .got ∨ role = some .exiting then some 0 else none
-  ctr : role = some .inn ∨ role = some .pend → ∃ c, P.ctr = some c ∧ follows last c = true
+/-- the task of process `q` that is the holder in the property's view, if any -/
+def holdOf (k : XChk) (q : Nat) : Option Nat :=
+  match k.holder with
+  | some (p, t) => if p = q then some t else none
+  | none => none
 
-theorem PInv.relast {P : Proc} {l l' : Option Nat} (h : PInv P none l) : PInv P none l' :=
-  ⟨h.others, h.wf, h.notCreated, h.ready, h.busy, by simp⟩
+structure PInv (P : Proc) (hold : Option Nat) (m : XMode) (last : Option Nat) : Prop where
+  wf : ∀ t, wfX (if hold = some t then m else .out) (P.progs t) = true
+  tl : ∀ t, hold = some t → P.tholder = some t
+  woken : P.twoken = true → P.tholder = none ∧ P.twaiters ≠ []
+  ctr : hold.isSome = true → m = .inn ∨ m = .pend → ∃ c, P.ctr = some c ∧ follows last c = true
+  ready : hold.isSome = true → P.init = .ready
+  busy : ∀ u, P.busy = some u → P.tholder = some u
+
+theorem PInv.relast {P : Proc} {m m' : XMode} {l l' : Option Nat} (h : PInv P none m l) : PInv P none m' l' :=
+  ⟨by simpa using h.wf, by simp, h.woken, by simp, by simp, h.busy⟩
 
 structure XInv (s : XSt) (k : XChk) (m : XMode) : Prop where
-  present : s.file.present = true
-  procs : ∀ q, PInv (s.procs q) (roleOf k m q) k.last
+  procs : ∀ q, PInv (s.procs q) (holdOf k q) m k.last
   owner : s.file.owner = k.holder.map (·.1)
-  task0 : ∀ p t, k.holder = some (p, t) → t = 0
   mode : k.holder = none ↔ m = .out
   pend : k.pend = true ↔ m = .pend
-  byte : ∃ v, s.file.data[s.off]? = some v ∧ (m ≠ .inn → m ≠ .pend → follows k.last v = true)
+  byte : m ≠ .inn → m ≠ .pend → follows k.last (cur s.file.data s.off) = true
 
+theorem holdOf_self {k : XChk} {p t : Nat} (h : k.holder = some (p, t)) : holdOf k p = some t := by
+  simp [holdOf, h]
+
+theorem holdOf_other {k : XChk} {p q : Nat} (h : k.holder = none ∨ ∃ t, k.holder = some (p, t)) (hq : q ≠ p) :
+    holdOf k q = none := by
+  rcases h with h | ⟨t, h⟩ <;> simp [holdOf, h, Ne.symm hq]
+
+/-- a step of process `p` that does not change the property's view -/
 theorem xinv_procs_same {s : XSt} {k : XChk} {m : XMode} {p : Nat} {P' : Proc} (h : XInv s k m)
-    (hp : PInv P' (roleOf k m p) k.last) : ∀ q, PInv (setProc s.procs p P' q) (roleOf k m q) k.last := by
+    (hp : PInv P' (holdOf k p) m k.last) : ∀ q, PInv (setProc s.procs p P' q) (holdOf k q) m k.last := by
   intro q
   by_cases hq : q = p
   · subst hq; simpa [setProc] using hp
   · simpa [setProc, hq] using h.procs q
 
+/-- a step of process `p` while the holder is, and stays, nobody or a task of `p` -/
 theorem xinv_procs_holder {s : XSt} {k k' : XChk} {m m' : XMode} {p : Nat} {P' : Proc} (h : XInv s k m)
-    (h1 : k.holder = none ∨ k.holder = some (p, 0)) (h2 : k'.holder = none ∨ k'.holder = some (p, 0))
-    (hp : PInv P' (roleOf k' m' p) k'.last) : ∀ q, PInv (setProc s.procs p P' q) (roleOf k' m' q) k'.last := by
+    (h1 : k.holder = none ∨ ∃ t, k.holder = some (p, t)) (h2 : k'.holder = none ∨ ∃ t, k'.holder = some (p, t))
+    (hp : PInv P' (holdOf k' p) m' k'.last) : ∀ q, PInv (setProc s.procs p P' q) (holdOf k' q) m' k'.last := by
   intro q
   by_cases hq : q = p
   · subst hq; simpa [setProc] using hp
-  · have r1 : roleOf k m q = none := by rcases h1 with h1 | h1 <;> simp [roleOf, h1, Ne.symm hq]
-    have r2 : roleOf k' m' q = none := by rcases h2 with h2 | h2 <;> simp [roleOf, h2, Ne.symm hq]
-    have := h.procs q
-    rw [r1] at this
-    rw [r2]
+  · have := h.procs q
+    rw [holdOf_other h1 hq] at this
+    rw [holdOf_other h2 hq]
     simpa [setProc, hq] using this.relast
 
-theorem roleOf_holder {k : XChk} {p : Nat} (hh : k.holder = some (p, 0)) (m : XMode) :
-    roleOf k m p = some m := by simp [roleOf, hh]
-
-theorem role_none_of_init {P : Proc} {role : Option XMode} {l : Option Nat} (h : PInv P role l)
-    (hi : P.init ≠ .ready) : role = none := by
-  cases hr : role with
-  | none => rfl
-  | some x => exact absurd (h.ready (by simp [hr])) hi
-
-/-- a step of `LockFile.__init__` of a process that finds the file present -/
-theorem xinv_init_step {s : XSt} {k : XChk} {m : XMode} {p : Nat} (h : XInv s k m) (i : InitSt)
-    (hi : (s.procs p).init ≠ .ready) (hi' : i ≠ .created) :
-    XInv { s with procs := setProc s.procs p { s.procs p with init := i } } k m := by
+/-- `LockFile.__init__` of any process, at any time: nothing the property sees changes -/
+theorem xinv_init_step {s : XSt} {k : XChk} {m : XMode} {p : Nat} (h : XInv s k m) (i : InitSt) (f : File)
+    (hi : (s.procs p).init ≠ .ready) (hf : f.owner = s.file.owner) (hc : cur f.data s.off = cur s.file.data s.off) :
+    XInv { s with file := f, procs := setProc s.procs p { s.procs p with init := i } } k m := by
   have hP := h.procs p
-  have hrole := role_none_of_init hP hi
-  refine ⟨h.present, xinv_procs_same h ?_, h.owner, h.task0, h.mode, h.pend, h.byte⟩
-  rw [hrole] at hP ⊢
-  exact ⟨hP.others, hP.wf, hi', by simp, hP.busy, by simp⟩
+  have hnone : holdOf k p = none := by
+    cases hr : holdOf k p with
+    | none => rfl
+    | some x => exact absurd (hP.ready (by simp [hr])) hi
+  rw [hnone] at hP
+  refine ⟨xinv_procs_same h (hnone ▸ ⟨hP.wf, hP.tl, hP.woken, hP.ctr, by simp, hP.busy⟩), by simpa [hf] using h.owner,
+    h.mode, h.pend, ?_⟩
+  intro h1 h2; simpa [hc] using h.byte h1 h2
 
-theorem stepX_inv (s : XSt) (k : XChk) (m : XMode) (pt : Nat × Nat) (h : XInv s k m) :
+theorem holdOf_eq {k : XChk} {p t : Nat} : holdOf k p = some t ↔ k.holder = some (p, t) := by
+  unfold holdOf
+  cases hk : k.holder with
+  | none => simp
+  | some qt =>
+    obtain ⟨q, t'⟩ := qt
+    by_cases hq : q = p
+    · subst hq; simp
+    · simp [hq]
+
+theorem pend_false {s : XSt} {k : XChk} {m : XMode} (h : XInv s k m) (hm : m ≠ .pend) : k.pend = false := by
+  cases hk : k.pend with
+  | false => rfl
+  | true => exact absurd (h.pend.1 hk) hm
+
+/-- the `lockf` attempt of a task that holds its process's task lock -/
+theorem tryLock_inv {s : XSt} {k : XChk} {m : XMode} {p t : Nat} {r : List PStep} {P : Proc} (h : XInv s k m)
+    (hnot : k.holder ≠ some (p, t)) (hP : PInv P (holdOf k p) m k.last) (hth : P.tholder = some t)
+    (hrdy : P.init = .ready)
+    (hr : wfX .got r = true) :
+    ∃ k' m', XInv (tryLock s p t P r).1 k' m' ∧
+      ∀ rest, checkX k ((tryLock s p t P r).2 ++ rest) = checkX k' rest := by
+  cases hk : k.holder with
+  | none =>
+    have hown : s.file.owner = none := by rw [h.owner, hk]; rfl
+    have hm : m = .out := h.mode.1 hk
+    subst hm
+    have hpend := pend_false h (by simp)
+    have hho : holdOf k p = none := by simp [holdOf, hk]
+    rw [hho] at hP
+    refine ⟨{ k with holder := some (p, t) }, .got, ?_, fun rest => by simp [tryLock, hown, checkX, xchk1, hk]⟩
+    have hfree : (s.file.owner.isSome && s.file.owner != some p) = false := by simp [hown]
+    simp only [tryLock, hfree, Bool.false_eq_true, ↓reduceIte]
+    refine ⟨xinv_procs_holder h (.inl hk) (.inr ⟨t, rfl⟩) ?_, by simp, by simp, by simp [hpend],
+      fun _ _ => h.byte (by simp) (by simp)⟩
+    rw [holdOf_self (k := { k with holder := some (p, t) }) rfl]
+    refine ⟨fun u => ?_, fun u hu => by simp at hu; subst hu; exact hth,
+      fun hw => absurd (hP.woken hw).1 (by simp [hth]), by simp, fun _ => hrdy, fun u hu => by simp at hu; subst hu; exact hth⟩
+    by_cases hu : u = t
+    · subst hu; simpa [contProg] using hr
+    · have := hP.wf u
+      simp only [reduceCtorEq, ↓reduceIte] at this
+      simpa [contProg, hu, Ne.symm hu] using this
+  | some qt =>
+    obtain ⟨q, t'⟩ := qt
+    have hqp : q ≠ p := by
+      intro e; subst e
+      have := hP.tl t' (holdOf_self hk)
+      rw [hth] at this
+      exact hnot (by rw [hk]; simp at this; rw [this])
+    have hown : s.file.owner = some q := by rw [h.owner, hk]; rfl
+    refine ⟨k, m, ?_, fun rest => by simp [tryLock, hown, hqp, checkX, xchk1]⟩
+    have hbusy : (s.file.owner.isSome && s.file.owner != some p) = true := by simp [hown, hqp]
+    simp only [tryLock, hbusy, ↓reduceIte]
+    exact ⟨xinv_procs_same h ⟨hP.wf, hP.tl, hP.woken, hP.ctr, hP.ready, by simp⟩, h.owner, h.mode, h.pend, h.byte⟩
+
+/-- a task of `p` other than `t` keeps its shape when `t` moves on -/
+theorem wf_cont {P : Proc} {hold : Option Nat} {m m' : XMode} {l : Option Nat} {t : Nat} {r : List PStep}
+    (hP : PInv P hold m l) (hh : hold = some t) (hr : wfX m' r = true) (hold' : Option Nat)
+    (h' : hold' = some t ∨ (hold' = none ∧ m' = .out)) :
+    ∀ u, wfX (if hold' = some u then m' else .out) (contProg P t r u) = true := by
+  intro u
+  by_cases hu : u = t
+  · subst hu
+    rcases h' with h' | ⟨h', hm⟩
+    · simpa [contProg, h'] using hr
+    · subst hm; simpa [contProg, h'] using hr
+  · have := hP.wf u
+    rw [hh] at this
+    have hne : ¬ (some t = some u) := by simp [Ne.symm hu]
+    simp only [hne, ↓reduceIte] at this
+    rcases h' with h' | ⟨h', _⟩ <;> simpa [contProg, hu, h', Ne.symm hu] using this
+
+/-- once the file exists it stays (removal is not part of this property) -/
+theorem started_step (s : XSt) (pt : Nat × Nat) (hs : s.file.present = true) :
+    (stepX s pt).1.file.present = true := by
+  unfold stepX tryLock
+  simp only []
+  repeat' split
+  all_goals simp_all
+
+theorem stepX_inv (s : XSt) (k : XChk) (m : XMode) (pt : Nat × Nat) (h : XInv s k m)
+    (hpres : s.file.present = true) :
     ∃ k' m', XInv (stepX s pt).1 k' m' ∧ ∀ rest, checkX k ((stepX s pt).2 ++ rest) = checkX k' rest := by
   obtain ⟨p, t⟩ := pt
   have hP := h.procs p
   cases hinit : (s.procs p).init with
   | fresh =>
-    refine ⟨k, m, ?_, fun rest => by simp [stepX, hinit, h.present, checkX, xchk1]⟩
-    simp only [stepX, hinit, h.present, ↓reduceIte]
-    exact xinv_init_step h .opening (by simp [hinit]) (by simp)
-  | created => exact absurd hinit hP.notCreated
+    refine ⟨k, m, ?_, fun rest => by simp [stepX, hinit, hpres, checkX, xchk1]⟩
+    simp only [stepX, hinit, hpres, ↓reduceIte]
+    exact xinv_init_step h .opening s.file (by simp [hinit]) rfl rfl
+  | created =>
+    refine ⟨k, m, ?_, fun rest => by simp [stepX, hinit, checkX, xchk1]⟩
+    simp only [stepX, hinit]
+    exact xinv_init_step h .ready _ (by simp [hinit]) rfl (cur_truncTo _ _ _)
   | opening =>
     refine ⟨k, m, ?_, fun rest => by simp [stepX, hinit, checkX, xchk1]⟩
     simp only [stepX, hinit]
-    exact xinv_init_step h .ready (by simp [hinit]) (by simp)
+    exact xinv_init_step h .ready s.file (by simp [hinit]) rfl rfl
   | ready =>
     cases hb : ((s.procs p).busy.isSome && (s.procs p).busy != some t) with
     | true => exact ⟨k, m, by simpa [stepX, hinit, hb] using h, fun rest => by simp [stepX, hinit, hb]⟩
     | false =>
-      by_cases ht : t = 0
-      case neg =>
-        have := hP.others t ht
-        exact ⟨k, m, by simpa [stepX, hinit, hb, this] using h, fun rest => by simp [stepX, hinit, hb, this]⟩
-      subst ht
-      by_cases hh : k.holder = some (p, 0)
-      · have hrole : roleOf k m p = some m := by simp [roleOf, hh]
-        rw [hrole] at hP
-        have hwf := hP.wf
-        simp only [Option.getD_some] at hwf
+      by_cases hh : k.holder = some (p, t)
+      · have hho : holdOf k p = some t := holdOf_self hh
+        rw [hho] at hP
+        have hwf := hP.wf t
+        simp only [↓reduceIte] at hwf
         have hne : k.holder ≠ none := by simp [hh]
+        have h1 : k.holder = none ∨ ∃ t, k.holder = some (p, t) := .inr ⟨t, hh⟩
         cases hm : m with
         | out => exact absurd (h.mode.2 hm) hne
         | got =>
           subst hm
           obtain ⟨r, hpr, hr⟩ := wfX_got hwf
-          obtain ⟨v, hv, hf⟩ := h.byte
-          have hf := hf (by simp) (by simp)
-          have hpend : k.pend = false := by
-            cases hk : k.pend with
-            | false => rfl
-            | true => have := h.pend.1 hk; simp at this
-          refine ⟨k, .inn, ?_, fun rest => by simp [stepX, hinit, hb, hpr, hv, checkX, xchk1, hh, follows_le hf]⟩
-          simp only [stepX, hinit, hb, hpr, hv]
-          refine ⟨h.present, xinv_procs_holder h (.inr hh) (.inr hh) ?_, h.owner, h.task0, by simp [hh],
-            by simp [hpend], ⟨v, hv, by simp⟩⟩
-          rw [roleOf_holder hh]
-          exact ⟨fun u hu => by simpa [contProg, hu] using hP.others u hu, by simpa [contProg] using hr,
-            by simp, fun _ => rfl, by simp, fun _ => ⟨v, rfl, hf⟩⟩
+          have hf := h.byte (by simp) (by simp)
+          have hpend := pend_false h (by simp)
+          refine ⟨k, .inn, ?_, fun rest => ?_⟩
+          · simp only [stepX, hinit, hb, hpr]
+            refine ⟨xinv_procs_holder h h1 h1 ?_, h.owner, by simp [hh], by simp [hpend], by simp⟩
+            rw [hho]
+            exact ⟨wf_cont hP rfl hr _ (.inl rfl), hP.tl, hP.woken, fun _ _ => ⟨_, rfl, hf⟩, fun _ => rfl, by simp⟩
+          · cases hd : s.file.data[s.off]? with
+            | none => simp [stepX, hinit, hb, hpr, hd, checkX, xchk1, hh]
+            | some v =>
+              have : v ≤ mbxMod := by have := follows_le hf; simpa [cur, hd] using this
+              simp [stepX, hinit, hb, hpr, hd, checkX, xchk1, hh, this]
         | inn =>
           subst hm
-          obtain ⟨c, hc, hfc⟩ := hP.ctr (.inl rfl)
-          have hpend : k.pend = false := by
-            cases hk : k.pend with
-            | false => rfl
-            | true => have := h.pend.1 hk; simp at this
-          obtain ⟨v, hv, -⟩ := h.byte
+          obtain ⟨c, hc, hfc⟩ := hP.ctr rfl (.inl rfl)
+          have hpend := pend_false h (by simp)
           rcases wfX_inn hwf with ⟨r, hpr, hr⟩ | ⟨r, hpr, hr⟩
-          · -- the next message leaves with the counter read under the lock
-            refine ⟨{ k with last := some c, pend := true }, .pend, ?_,
+          · refine ⟨{ k with last := some c, pend := true }, .pend, ?_,
               fun rest => by simp [stepX, hinit, hb, hpr, hc, checkX, xchk1, hh, hpend, hfc]⟩
             simp only [stepX, hinit, hb, hpr, hc]
-            refine ⟨h.present, xinv_procs_holder h (.inr hh) (.inr hh) ?_, h.owner, h.task0, by simp [hh],
-              by simp, ⟨v, hv, by simp⟩⟩
-            rw [roleOf_holder (k := { k with last := some c, pend := true }) hh]
-            exact ⟨fun u hu => by simpa [contProg, hu] using hP.others u hu, by simpa [contProg] using hr,
-              by simp, fun _ => rfl, by simp [hP.busy], fun _ => ⟨nextCounter c, rfl, by simp [follows]⟩⟩
-          · -- `__aexit__`: the counter goes back into the file
-            refine ⟨k, .exiting, ?_,
-              fun rest => by simp [stepX, hinit, hb, hpr, hc, checkX, xchk1, hh, hpend]⟩
+            refine ⟨xinv_procs_holder h h1 (.inr ⟨t, hh⟩) ?_, h.owner, by simp [hh], by simp, by simp⟩
+            rw [holdOf_self (k := { k with last := some c, pend := true }) hh]
+            exact ⟨wf_cont hP rfl hr _ (.inl rfl), hP.tl, hP.woken, fun _ _ => ⟨nextCounter c, rfl, by simp [follows]⟩,
+              fun _ => rfl, hP.busy⟩
+          · refine ⟨k, .exiting, ?_, fun rest => by simp [stepX, hinit, hb, hpr, hc, checkX, xchk1, hh, hpend]⟩
             simp only [stepX, hinit, hb, hpr, hc]
-            refine ⟨h.present, xinv_procs_holder h (.inr hh) (.inr hh) ?_, h.owner, h.task0, by simp [hh],
-              by simp [hpend], ⟨c, putByte_get _ _ _, fun _ _ => hfc⟩⟩
-            rw [roleOf_holder hh]
-            exact ⟨fun u hu => by simpa [contProg, hu] using hP.others u hu, by simpa [contProg] using hr,
-              by simp, fun _ => rfl, by simp, by simp⟩
+            refine ⟨xinv_procs_holder h h1 h1 ?_, h.owner, by simp [hh], by simp [hpend],
+              fun _ _ => by simpa [cur_putByte] using hfc⟩
+            rw [hho]
+            exact ⟨wf_cont hP rfl hr _ (.inl rfl), hP.tl, hP.woken, by simp, fun _ => rfl,
+              fun u hu => by simp at hu; subst hu; exact hP.tl _ rfl⟩
         | pend =>
           subst hm
-          obtain ⟨c, hc, hfc⟩ := hP.ctr (.inr rfl)
+          obtain ⟨c, hc, hfc⟩ := hP.ctr rfl (.inr rfl)
           have hpend : k.pend = true := h.pend.2 rfl
-          obtain ⟨v, hv, -⟩ := h.byte
           obtain ⟨r, hpr, hr⟩ := wfX_pend hwf
           refine ⟨{ k with pend := false }, .inn, ?_,
             fun rest => by simp [stepX, hinit, hb, hpr, checkX, xchk1, hh, hpend]⟩
           simp only [stepX, hinit, hb, hpr]
-          refine ⟨h.present, xinv_procs_holder h (.inr hh) (.inr hh) ?_, h.owner, h.task0, by simp [hh],
-            by simp, ⟨v, hv, by simp⟩⟩
-          rw [roleOf_holder (k := { k with pend := false }) hh]
-          exact ⟨fun u hu => by simpa [contProg, hu] using hP.others u hu, by simpa [contProg] using hr,
-            by simp, fun _ => rfl, by simp [hP.busy], fun _ => ⟨c, hc, hfc⟩⟩
+          refine ⟨xinv_procs_holder h h1 (.inr ⟨t, hh⟩) ?_, h.owner, by simp [hh], by simp, by simp⟩
+          rw [holdOf_self (k := { k with pend := false }) hh]
+          exact ⟨wf_cont hP rfl hr _ (.inl rfl), hP.tl, hP.woken, fun _ _ => ⟨c, hc, hfc⟩, fun _ => rfl, hP.busy⟩
         | exiting =>
           subst hm
-          have hpend : k.pend = false := by
-            cases hk : k.pend with
-            | false => rfl
-            | true => have := h.pend.1 hk; simp at this
-          obtain ⟨v, hv, hf⟩ := h.byte
-          have hf := hf (by simp) (by simp)
+          have hpend := pend_false h (by simp)
+          have hf := h.byte (by simp) (by simp)
           obtain ⟨r, hpr, hr⟩ := wfX_exiting hwf
           have hown : s.file.owner = some p := by rw [h.owner, hh]; rfl
-          refine ⟨{ k with holder := none }, .out, ?_,
-            fun rest => by simp [stepX, hinit, hb, hpr, checkX, xchk1, hh]⟩
+          refine ⟨{ k with holder := none }, .out, ?_, fun rest => by simp [stepX, hinit, hb, hpr, checkX, xchk1, hh]⟩
           simp only [stepX, hinit, hb, hpr, hown]
-          refine ⟨h.present, xinv_procs_holder h (.inr hh) (.inl rfl) ?_, by simp, by simp, by simp,
-            by simp [hpend], ⟨v, hv, fun _ _ => hf⟩⟩
-          have : roleOf { k with holder := none } .out p = none := by simp [roleOf]
+          refine ⟨xinv_procs_holder h h1 (.inl rfl) ?_, by simp, by simp, by simp [hpend], fun _ _ => hf⟩
+          have : holdOf { k with holder := none } p = none := by simp [holdOf]
           rw [this]
-          exact ⟨fun u hu => by simpa [contProg, hu] using hP.others u hu, by simpa [contProg] using hr,
-            by simp, by simp, by simp, by simp⟩
-      · have hrole : roleOf k m p = none := by simp [roleOf, hh]
-        rw [hrole] at hP
-        have hwf := hP.wf
-        simp only [Option.getD_none] at hwf
+          exact ⟨wf_cont hP rfl hr _ (.inr ⟨rfl, rfl⟩), by simp, fun hw => ⟨rfl, by simpa using hw⟩, by simp, by simp, by simp⟩
+      · have hnot : holdOf k p ≠ some t := fun e => hh (holdOf_eq.1 e)
+        have hwf := hP.wf t
+        simp only [hnot, ↓reduceIte] at hwf
         rcases wfX_out hwf with hpr | ⟨r, hpr, hr⟩
         · exact ⟨k, m, by simpa [stepX, hinit, hb, hpr] using h, fun rest => by simp [stepX, hinit, hb, hpr]⟩
-        · cases hk : k.holder with
-          | none =>
-            have hown : s.file.owner = none := by rw [h.owner, hk]; rfl
-            have hm : m = .out := h.mode.1 hk
-            subst hm
-            have hpend : k.pend = false := by
-              cases hkp : k.pend with
-              | false => rfl
-              | true => have := h.pend.1 hkp; simp at this
-            obtain ⟨v, hv, hf⟩ := h.byte
-            have hf := hf (by simp) (by simp)
-            refine ⟨{ k with holder := some (p, 0) }, .got, ?_,
-              fun rest => by simp [stepX, hinit, hb, hpr, hown, checkX, xchk1, hk]⟩
-            simp only [stepX, hinit, hb, hpr, hown]
-            refine ⟨h.present, xinv_procs_holder h (.inl hk) (.inr rfl) ?_, by simp, ?_, by simp,
-              by simp [hpend], ⟨v, hv, fun _ _ => hf⟩⟩
-            · rw [roleOf_holder (k := { k with holder := some (p, 0) }) rfl]
-              exact ⟨fun u hu => by simpa [contProg, hu] using hP.others u hu, by simpa [contProg] using hr,
-                by simp, fun _ => rfl, by simp, by simp⟩
-            · intro p' t' hpt; simp at hpt; exact hpt.2.symm
-          | some qt =>
-            obtain ⟨q, t'⟩ := qt
-            have ht' : t' = 0 := h.task0 q t' hk
-            subst ht'
-            have hqp : q ≠ p := fun e => hh (by rw [hk, e])
-            have hown : s.file.owner = some q := by rw [h.owner, hk]; rfl
-            exact ⟨k, m, by simpa [stepX, hinit, hb, hpr, hown, hqp] using h,
-              fun rest => by simp [stepX, hinit, hb, hpr, hown, hqp, checkX, xchk1]⟩
+        · cases hth : ((s.procs p).tholder == some t) with
+          | true =>
+            have := tryLock_inv (r := r) h hh hP (by simpa using hth) hinit hr
+            simpa [stepX, hinit, hb, hpr, hth] using this
+          | false =>
+            by_cases hw : t ∈ (s.procs p).twaiters
+            · cases hwk : ((s.procs p).twoken && (s.procs p).twaiters.head? == some t) with
+              | false => exact ⟨k, m, by simpa [stepX, hinit, hb, hpr, hth, hw, hwk] using h,
+                  fun rest => by simp [stepX, hinit, hb, hpr, hth, hw, hwk]⟩
+              | true =>
+                have hwoken : (s.procs p).twoken = true := by simp at hwk; exact hwk.1
+                refine ⟨k, m, ?_, fun rest => by simp [stepX, hinit, hb, hpr, hth, hw, hwk]⟩
+                simp only [stepX, hinit, hb, hpr, hth, hw, hwk, Bool.false_eq_true, ↓reduceIte]
+                refine ⟨xinv_procs_same h ⟨hP.wf, fun u hu => ?_, by simp, hP.ctr, fun _ => rfl, by simp⟩, h.owner, h.mode, h.pend, h.byte⟩
+                have := hP.tl u hu
+                rw [(hP.woken hwoken).1] at this
+                cases this
+            · cases hf : ((s.procs p).tholder.isNone && (s.procs p).twaiters.isEmpty) with
+              | true =>
+                have hnone : (s.procs p).tholder = none := by simp at hf; exact hf.1
+                have hemp : (s.procs p).twaiters = [] := by simp at hf; exact hf.2
+                have hP1 : PInv { s.procs p with tholder := some t } (holdOf k p) m k.last :=
+                  ⟨hP.wf, fun u hu => (by have := hP.tl u hu; rw [hnone] at this; cases this),
+                   fun hwk => absurd hemp (hP.woken hwk).2, hP.ctr, hP.ready,
+                   fun u hu => (by have := hP.busy u hu; rw [hnone] at this; cases this)⟩
+                have := tryLock_inv (r := r) h hh hP1 rfl hinit hr
+                simpa [stepX, hinit, hb, hpr, hth, hw, hf] using this
+              | false =>
+                refine ⟨k, m, ?_, fun rest => by simp [stepX, hinit, hb, hpr, hth, hw, hf]⟩
+                simp only [stepX, hinit, hb, hpr, hth, hw, hf, Bool.false_eq_true, ↓reduceIte]
+                exact ⟨xinv_procs_same h ⟨hP.wf, hP.tl, fun hwk => ⟨(hP.woken hwk).1, by simp⟩, hP.ctr, fun _ => rfl, hP.busy⟩,
+                  h.owner, h.mode, h.pend, h.byte⟩
 
-theorem runX_ok (s : XSt) (k : XChk) (m : XMode) (sched : List (Nat × Nat)) (h : XInv s k m) :
-    checkX k (runX s sched) = true := by
+theorem runX_ok (s : XSt) (k : XChk) (m : XMode) (sched : List (Nat × Nat)) (h : XInv s k m)
+    (hp : s.file.present = true) : checkX k (runX s sched) = true := by
   induction sched generalizing s k m with
   | nil => rfl
   | cons pt rest ih =>
-    obtain ⟨k', m', hi, hc⟩ := stepX_inv s k m pt h
+    obtain ⟨k', m', hi, hc⟩ := stepX_inv s k m pt h hp
     simp only [runX]
-    rw [hc]; exact ih _ _ _ hi
+    rw [hc]; exact ih _ _ _ hi (started_step s pt hp)
 
-theorem oneTask_getD {tasks : List (List (List Nat))} (h : oneTask tasks = true) (q t : Nat) (ht : t ≠ 0) :
-    (tasks.getD q []).getD t [] = [] := by
-  have hl : (tasks.getD q []).length ≤ 1 := by
-    rw [List.getD_eq_getElem?_getD]
-    cases hq : tasks[q]? with
-    | none => simp
-    | some ts =>
-      have hmem := List.mem_of_getElem? hq
-      simp only [oneTask, List.all_eq_true, decide_eq_true_eq] at h
-      simpa using h ts hmem
-  rw [List.getD_eq_getElem?_getD, List.getElem?_eq_none (by omega)]
-  rfl
+theorem afterX_inv (s : XSt) (k : XChk) (m : XMode) (sched : List (Nat × Nat)) (h : XInv s k m)
+    (hp : s.file.present = true) : ∃ k' m', XInv (afterX s sched) k' m' := by
+  induction sched generalizing s k m with
+  | nil => exact ⟨k, m, h⟩
+  | cons pt rest ih =>
+    obtain ⟨k', m', hi, -⟩ := stepX_inv s k m pt h hp
+    exact ih _ _ _ hi (started_step s pt hp)
 
-/-- a process that has not taken the lock, anywhere in `LockFile.__init__` except between create and write -/
-theorem pinv_idle {tasks : List (List (List Nat))} (h : oneTask tasks = true) (q : Nat) (i : InitSt) (hi : i ≠ .created)
-    (l : Option Nat) :
-    PInv { init := i, ctr := none, busy := none, progs := fun t => progX ((tasks.getD q []).getD t []) } none l :=
-  ⟨fun t ht => by show progX ((tasks.getD q []).getD t []) = []; rw [oneTask_getD h q t ht]; rfl,
-    by simp [wfX_prog], hi, by simp, by simp, by simp⟩
+/-- no task has started: any state of `LockFile.__init__`, nobody holds or waits for the task lock -/
+theorem pinv_idle (tasks : List (List (List Nat))) (q : Nat) (i : InitSt) (l : Option Nat) :
+    PInv { init := i, ctr := none, busy := none, tholder := none, twoken := false, twaiters := [],
+           progs := fun t => progX ((tasks.getD q []).getD t []) } none .out l :=
+  ⟨fun t => by simp [wfX_prog], by simp, by simp, by simp, by simp, by simp⟩
 
-theorem fileOk_byte {off : Nat} {data : List Nat} (h : fileOk off data = true) :
-    ∃ v, data[off]? = some v ∧ follows none v = true := by
-  unfold fileOk at h
-  cases hd : data[off]? with
-  | none => simp [hd] at h
-  | some v => exact ⟨v, rfl, by simpa [hd, follows] using h⟩
-
-theorem initX_inv (size off : Nat) (data : List Nat) (tasks : List (List (List Nat)))
-    (hf : fileOk off data = true) (h1 : oneTask tasks = true) :
+theorem initX_inv (size off : Nat) (data : List Nat) (tasks : List (List (List Nat))) (hf : fileOk off data = true) :
     XInv (initX size off (some data) tasks) xchk0 .out := by
-  obtain ⟨v, hv, hfv⟩ := fileOk_byte hf
-  refine ⟨rfl, fun q => ?_, rfl, by simp [xchk0], by simp [xchk0], by simp [xchk0], ⟨v, hv, fun _ _ => hfv⟩⟩
-  have : roleOf xchk0 .out q = none := by simp [roleOf, xchk0]
+  refine ⟨fun q => ?_, rfl, by simp [xchk0], by simp [xchk0], fun _ _ => by simpa [fileOk, follows, xchk0, initX] using hf⟩
+  have : holdOf xchk0 q = none := by simp [holdOf, xchk0]
   rw [this]
-  exact pinv_idle h1 q .fresh (by simp) _
+  exact pinv_idle tasks q .fresh _
 
-/-- **cross-process, what holds**: any number of processes, one mailbox task each, lock file initialised:
-under every schedule of the file operations the exchanges are serialised, the counters of successive messages
-of all processes are consecutive in the cycle, every counter read from the file is valid, nobody fails -/
-theorem crossproc_serialised_partial (size off : Nat) (data : List Nat) (tasks : List (List (List Nat)))
-    (sched : List (Nat × Nat)) (hf : fileOk off data = true) (h1 : oneTask tasks = true) :
+/-- **cross-process**: any number of processes, any number of tasks per process, any numbers of critical sections
+and exchanges, lock file present with a counter in the terminal's byte: under every schedule of the file
+operations and of the tasks, critical sections of different users never overlap, each request is answered before
+the next one leaves, the counters of successive messages of all users are consecutive in the cycle, every counter
+read from the file is valid, and no user fails -/
+theorem crossproc_serialised (size off : Nat) (data : List Nat) (tasks : List (List (List Nat)))
+    (sched : List (Nat × Nat)) (hf : fileOk off data = true) :
     checkX xchk0 (runX (initX size off (some data) tasks) sched) = true :=
-  runX_ok _ _ _ _ (initX_inv size off data tasks hf h1)
+  runX_ok _ _ _ _ (initX_inv size off data tasks hf) rfl
 
-/-- **creation, what holds**: if the creating process gets through `LockFile.__init__` (create, write) before
-any other process runs, then for any number of processes (one mailbox task each) and any continuation of the
-schedule everything is serialised and counted from 0 -/
-theorem creation_window_safe_partial (size off : Nat) (tasks : List (List (List Nat))) (p t1 t2 : Nat)
-    (rest : List (Nat × Nat)) (ho : off < size) (h1 : oneTask tasks = true) :
-    checkX xchk0 (runX (initX size off none tasks) ((p, t1) :: (p, t2) :: rest)) = true := by
-  have e1 : stepX (initX size off none tasks) (p, t1) =
-      ({ (initX size off none tasks) with
-          file := { present := true, data := [], owner := none },
-          procs := setProc (initX size off none tasks).procs p
-            { init := .created, ctr := none, busy := none, progs := fun t => progX ((tasks.getD p []).getD t []) } },
-       [.creat p true]) := by
-    simp [stepX, initX]
-  simp only [runX, e1]
-  generalize hs1 : ({ (initX size off none tasks) with
-          file := { present := true, data := [], owner := none },
-          procs := setProc (initX size off none tasks).procs p
-            { init := .created, ctr := none, busy := none, progs := fun t => progX ((tasks.getD p []).getD t []) } } : XSt) = s1
-  have e2 : stepX s1 (p, t2) =
-      ({ s1 with
-          file := { present := true, data := writeInit [] size, owner := none },
-          procs := setProc s1.procs p
-            { init := .ready, ctr := none, busy := none, progs := fun t => progX ((tasks.getD p []).getD t []) } },
-       [.winit p]) := by
-    subst hs1; simp [stepX, initX, setProc]
-  rw [e2]
-  simp only [List.singleton_append, checkX, xchk1]
-  apply runX_ok _ _ .out
-  subst hs1
-  refine ⟨rfl, fun q => ?_, rfl, by simp [xchk0], by simp [xchk0], by simp [xchk0],
-    ⟨0, by simp [writeInit, initX, ho], fun _ _ => by simp [follows, xchk0]⟩⟩
-  have : roleOf xchk0 .out q = none := by simp [roleOf, xchk0]
+/-- the state right after some process created the file (nothing else has happened) -/
+theorem created_inv (size off : Nat) (tasks : List (List (List Nat))) (p : Nat) :
+    XInv { (initX size off none tasks) with
+            file := { present := true, data := [], owner := none },
+            procs := setProc (initX size off none tasks).procs p
+              { ((initX size off none tasks).procs p) with init := .created } } xchk0 .out := by
+  refine ⟨fun q => ?_, rfl, by simp [xchk0], by simp [xchk0], fun _ _ => by simp [follows, xchk0, cur]⟩
+  have : holdOf xchk0 q = none := by simp [holdOf, xchk0]
   rw [this]
   by_cases hq : q = p
-  · subst hq; simpa [setProc] using pinv_idle h1 q .ready (by simp) _
-  · simpa [setProc, hq, initX] using pinv_idle h1 q .fresh (by simp) _
+  · subst hq; simpa [setProc, initX] using pinv_idle tasks q .created _
+  · simpa [setProc, hq, initX] using pinv_idle tasks q .fresh _
 
-/-! ### non-vacuity -/
+/-- **creation**: the lock file does not exist.  For any number of processes and tasks and every schedule — in
+particular with other processes opening, locking, reading and writing between the creator's `O_EXCL` open and
+its `ftruncate` — every user obtains a valid counter (0 on a short read), nobody fails, and everything is
+serialised and counted from 0 -/
+theorem creation_window_safe (size off : Nat) (tasks : List (List (List Nat))) (sched : List (Nat × Nat)) :
+    checkX xchk0 (runX (initX size off none tasks) sched) = true := by
+  cases sched with
+  | nil => rfl
+  | cons pt rest =>
+    obtain ⟨p, t⟩ := pt
+    have e1 : stepX (initX size off none tasks) (p, t) =
+        ({ (initX size off none tasks) with
+            file := { present := true, data := [], owner := none },
+            procs := setProc (initX size off none tasks).procs p
+              { ((initX size off none tasks).procs p) with init := .created } }, [.creat p true]) := by
+      simp [stepX, initX]
+    simp only [runX, e1, List.singleton_append, checkX, xchk1]
+    exact runX_ok _ _ _ _ (created_inv size off tasks p) rfl
 
-/-- two processes contend for the byte; the second spins on `lockf`, then continues the count -/
-example : runX (initX 4 1 (some [0, 5, 0, 0]) [[[1]], [[2]]])
+/-- **nobody spins forever on a dead lock**: in every reachable state, if the record lock is held by process `p`
+then one task of `p` holds it together with the task lock, the process is free to run that task, and the task's
+next step is none of the steps that can wait (`enter`): the holder can always proceed to its `unlock` -/
+theorem holder_can_proceed (size off : Nat) (file : Option (List Nat)) (tasks : List (List (List Nat)))
+    (sched : List (Nat × Nat)) (hf : ∀ d, file = some d → fileOk off d = true) (p : Nat)
+    (ho : (afterX (initX size off file tasks) sched).file.owner = some p) :
+    ∃ t st r, ((afterX (initX size off file tasks) sched).procs p).progs t = st :: r ∧ st ≠ .enter ∧
+      ((afterX (initX size off file tasks) sched).procs p).init = .ready ∧
+      ((afterX (initX size off file tasks) sched).procs p).tholder = some t ∧
+      (((afterX (initX size off file tasks) sched).procs p).busy = none ∨
+       ((afterX (initX size off file tasks) sched).procs p).busy = some t) := by
+  have key : ∀ s k m, XInv s k m → s.file.owner = some p →
+      ∃ t st r, (s.procs p).progs t = st :: r ∧ st ≠ .enter ∧ (s.procs p).init = .ready ∧
+        (s.procs p).tholder = some t ∧ ((s.procs p).busy = none ∨ (s.procs p).busy = some t) := by
+    intro s k m h hown
+    rw [h.owner] at hown
+    cases hk : k.holder with
+    | none => simp [hk] at hown
+    | some qt =>
+      obtain ⟨q, t⟩ := qt
+      simp [hk] at hown; subst hown
+      have hP := h.procs q
+      rw [holdOf_self hk] at hP
+      have hm : m ≠ .out := fun e => by have := h.mode.2 e; simp [hk] at this
+      have hwf := hP.wf t
+      simp only [↓reduceIte] at hwf
+      have hth := hP.tl t rfl
+      have hb : (s.procs q).busy = none ∨ (s.procs q).busy = some t := by
+        cases hbz : (s.procs q).busy with
+        | none => exact .inl rfl
+        | some u => have := hP.busy u hbz; rw [hth] at this; simp at this; subst this; exact .inr rfl
+      cases hpr : (s.procs q).progs t with
+      | nil => rw [hpr] at hwf; cases m <;> simp_all [wfX]
+      | cons st r =>
+        refine ⟨t, st, r, hpr, ?_, hP.ready rfl, hth, hb⟩
+        intro e; subst e; rw [hpr] at hwf; exact hm (wfX_enter hwf)
+  cases file with
+  | some d =>
+    obtain ⟨k', m', hi⟩ := afterX_inv _ _ _ sched (initX_inv size off d tasks (hf d rfl)) rfl
+    exact key _ _ _ hi ho
+  | none =>
+    cases sched with
+    | nil => simp [afterX, initX] at ho
+    | cons pt rest =>
+      obtain ⟨q, t⟩ := pt
+      have e1 : stepX (initX size off none tasks) (q, t) =
+          ({ (initX size off none tasks) with
+              file := { present := true, data := [], owner := none },
+              procs := setProc (initX size off none tasks).procs q
+                { ((initX size off none tasks).procs q) with init := .created } }, [.creat q true]) := by
+        simp [stepX, initX]
+      simp only [afterX, e1] at ho ⊢
+      obtain ⟨k', m', hi⟩ := afterX_inv _ _ _ rest (created_inv size off tasks q) rfl
+      exact key _ _ _ hi ho
+
+/-- **addresses**: every address `find_free_address` can hand out (`randint(lo, hi)`, both ends included) is
+accepted by `ParallelMailboxLock(LockFile(name, lo, hi), address)`, and the created file has a byte for it -/
+theorem addr_accepted (no : Nat) (h1 : addrLo ≤ no) (h2 : no ≤ addrHi) :
+    lockCtorOk addrLo addrHi no = true ∧ no - addrLo < (truncTo [] (addrHi - addrLo + 1)).length := by
+  refine ⟨by simp [lockCtorOk, h1, h2], ?_⟩
+  simp [truncTo]; omega
+
+/-! ### non-vacuity; the former counterexample schedules on the repaired code -/
+
+/-- two tasks of process 0 share the lock object: the second waits for the task lock -/
+def sameProcSched : List (Nat × Nat) :=
+  [(0,0), (0,0), (0,0), (0,0), (0,0), (0,1), (0,1), (0,1), (0,0), (0,0), (0,0), (0,1), (0,1), (0,1), (0,1), (0,1),
+   (0,1), (0,1)]
+
+theorem same_process_witness_now :
+    runX (initX 3 1 (some [0, 0, 0, 0]) [[[1], [1]]]) sameProcSched =
+      [.creat 0 false, .opened 0, .lockOk 0 0, .pread 0 0 0, .send 0 0 0, .recv 0 0, .pwrite 0 0 1, .unlock 0 0,
+       .lockOk 0 1, .pread 0 1 1, .send 0 1 1, .recv 0 1, .pwrite 0 1 2, .unlock 0 1] := by decide
+
+/-- process 0 creates the file; process 1 opens, locks, reads and writes before the creator's ftruncate -/
+def windowSched : List (Nat × Nat) :=
+  [(0,0), (1,0), (1,0), (1,0), (1,0), (1,0), (1,0), (1,0), (1,0), (0,0), (0,0), (0,0), (0,0), (0,0), (0,0), (0,0)]
+
+theorem creation_window_witness_now :
+    runX (initX 3 1 none [[[1]], [[1]]]) windowSched =
+      [.creat 0 true, .creat 1 false, .opened 1, .lockOk 1 0, .preadEmpty 1 0, .send 1 0 0, .recv 1 0, .pwrite 1 0 1,
+       .unlock 1 0, .winit 0, .lockOk 0 0, .pread 0 0 1, .send 0 0 1, .recv 0 0, .pwrite 0 0 2, .unlock 0 0] ∧
+    (afterX (initX 3 1 none [[[1]], [[1]]]) windowSched).file.data = [0, 2, 0, 0] := by decide
+
+/-- two processes contend for the byte; the second spins on `lockf`, then continues the count 5,6,7,1 -/
+example : runX (initX 3 1 (some [0, 5, 0, 0]) [[[1]], [[2]]])
       [(0,0), (0,0), (1,0), (1,0), (0,0), (1,0), (0,0), (0,0), (0,0), (1,0), (0,0), (0,0),
        (1,0), (1,0), (1,0), (1,0), (1,0), (1,0), (1,0), (1,0)] =
     [.creat 0 false, .opened 0, .creat 1 false, .opened 1, .lockOk 0 0, .lockBusy 1 0, .pread 0 0 5, .send 0 0 5,
      .recv 0 0, .lockBusy 1 0, .pwrite 0 0 6, .unlock 0 0, .lockOk 1 0, .pread 1 0 6, .send 1 0 6, .recv 1 0,
      .send 1 0 7, .recv 1 0, .pwrite 1 0 1, .unlock 1 0] := by decide
-example : fileOk 1 [0, 5, 0, 0] = true ∧ oneTask [[[1]], [[2]]] = true := by decide
-/-- creation completed first: the second process opens an initialised file -/
-example : runX (initX 4 1 none [[[1]], [[1]]]) [(0,3), (0,0), (1,0), (1,0), (1,0), (1,0), (1,0)] =
-    [.creat 0 true, .winit 0, .creat 1 false, .opened 1, .lockOk 1 0, .pread 1 0 0, .send 1 0 0] := by decide
-example : (afterX (initX 4 1 none [[[1]], [[1]]]) windowSched).file.owner = some 1 := by decide
+example : fileOk 1 [0, 5, 0, 0] = true := by decide
+/-- a waiter of the task lock is woken by `unlock` and owns the task lock before it calls `lockf` -/
+example : ((afterX (initX 3 1 (some [0, 0, 0, 0]) [[[1], [1]]]) (sameProcSched.take 12)).procs 0).tholder = some 1 := by
+  decide
+example : lockCtorOk addrLo addrHi addrHi = true := by decide
 
 end Ebv.C15
